@@ -29,9 +29,10 @@ Definition c04_spec_keys := spec_keys.
 Definition c04_dom (cf : cfg) (c : cmd) : bool := cfg_dom cf && cmd_dom c.
 (* membership in each recorded class, in the order of known_findings/C04.json *)
 Definition c04_classes (cf : cfg) (c : cmd) : list bool :=
-  [kf_bare_window c; kf_ipc_channel c; kf_short_request c; kf_macro_case cf c; kf_underscore_name cf c].
+  [kf_bare_window c; kf_short_request c; kf_macro_case cf c; kf_underscore_name cf c].
 Definition c04_tauri_camel := tauri_camel.
+Definition c04_tauri_snake := tauri_snake.
 
 Extraction Language OCaml.
 Extraction "tt_c04.ml" c04_cmd c04_cfg c04_model c04_observe c04_keys_ok c04_optional_ok c04_zod_src_ok
-  c04_modes_ok c04_spec_keys c04_dom c04_classes c04_tauri_camel.
+  c04_modes_ok c04_spec_keys c04_dom c04_classes c04_tauri_camel c04_tauri_snake.
